@@ -24,7 +24,8 @@ func init() {
 	register("C13", streamBuffer)
 	register("C01", streamPrinterWF, streamCompose)
 	register("C03", streamPrinterWF)
-	register("C11", streamTotality, streamPrinterWF, streamStars)
+	register("C11", streamTotality, streamPrinterWF, streamStars, streamNestedPanics)
+	register("C01", streamNestedPanics)
 	register("PM", streamPrinterModel)
 	for _, p := range []string{"C01", "C02", "C04", "C05", "C06", "C08", "C09", "C11", "C12", "C15", "C16", "C17"} {
 		register(p, streamPrinterModel)
